@@ -61,6 +61,7 @@ typedef struct ref_edit_s {
   ref_del_t del[VP_REF_MAX];
   ref_nf_t nf[VP_REF_MAX];
   int overflow; /* more entries than VP_REF_MAX: harness bound too small */
+  int toomany;    /* decoder: stopped at VP_REF_FIELD_LIMIT fields */
   size_t nfields; /* decoder: number of fields started (including a malformed last one) */
   uint32_t wide; /* encoder hint: fields (by index, see ref_encode) of non-constant varint length */
 } ref_edit_t;
@@ -76,6 +77,7 @@ ref_edit_init(ref_edit_t *r) {
   r->overflow = 0;
   r->wide = 0;
   r->nfields = 0;
+  r->toomany = 0;
 }
 
 /*
@@ -273,6 +275,13 @@ ref_decode(const uint8_t *p, size_t n, ref_edit_t *r) {
   ref_edit_init(r);
 
   while (in.pos < in.n) {
+#ifdef VP_REF_FIELD_LIMIT
+    /* the harness only considers inputs of at most VP_REF_FIELD_LIMIT fields */
+    if (r->nfields >= VP_REF_FIELD_LIMIT) {
+      r->toomany = 1;
+      return 0;
+    }
+#endif
     r->nfields++;
 
     if (!ref_get_varint32(&in, &tag))
